@@ -139,6 +139,24 @@ pub fn eval(case: &Case, must: bool) -> Verdict {
         }
     } else {
         let forbidden: Vec<&Outcome> = l.iter().filter(|o| !br.u.outcomes.contains(*o)).collect();
+        // inside K7a / K7b: what the recorded modification-order defects can explain is bounded by the
+        // enumeration with the K7 locations' modification order left unconstrained
+        let loose = known::k7_locations(p);
+        if !forbidden.is_empty() && loose != 0 {
+            let ul = refax::enumerate_loose(p, true, false, false, loose, 30_000_000);
+            if !ul.truncated {
+                if let Some(m) = forbidden.iter().find(|o| !ul.outcomes.contains(**o)) {
+                    v.detail["forbidden"] = serde_json::json!(forbidden.iter().map(|o| fmt_outcome(o)).collect::<Vec<_>>());
+                    return v.fail(
+                        "forbidden_outcome_beyond_mo",
+                        format!(
+                            "explored outcome is forbidden by C11/RC11 even when the modification order of the locations affected by the recorded findings F7a/F7b is left unconstrained: {}",
+                            fmt_outcome(m)
+                        ),
+                    );
+                }
+            }
+        }
         if let Some(m) = forbidden.first() {
             let msg = format!(
                 "explored outcome is forbidden by C11/RC11 (every reads-from / modification-order candidate violates coherence, atomicity, hb or psc): {}  ({} forbidden of {} explored)",
